@@ -20,7 +20,7 @@ theorems apply at every nesting depth.
 `Accepted len ps w` means: one of the three constructors, applied to the caller's
 list `ps`, returned the wrapper `w`.  64-bit `usize` is assumed.
 -/
-import Woodpile.Proofs.RoughTlvEnc
+import Woodpile.Proofs.RoughTlvRt
 
 namespace Woodpile.Props.C11
 open Woodpile.RoughTlv
@@ -87,6 +87,74 @@ theorem nested_lawful (bytes : V → List UInt8) (len : V → Nat) (ps : List (P
     w.tlvLen = (w.bytes bytes len).length := by
   obtain ⟨out, h1, h2⟩ := len_eq bytes len ps w h hl
   simp [Wrapper.bytes, h1, h2]
+
+/-- `MessageView::new` accepts the emitted bytes (and does not panic). -/
+theorem view_accepts (bytes : V → List UInt8) (len : V → Nat) (ps : List (Pair V))
+    (w : Wrapper V) (h : Accepted len ps w) (hl : ∀ p ∈ ps, len p.2 = (bytes p.2).length) :
+    ∃ out, w.encode bytes len = some out ∧ View.new out = some (.ok ⟨out⟩) := by
+  obtain ⟨out, h1, hv, _⟩ := h.view bytes hl
+  exact ⟨out, h1, (View.new_ok_iff out ⟨out⟩).mpr ⟨rfl, hv⟩⟩
+
+/-- The view of the emitted bytes returns the same pairs in the same (stably
+sorted) order through iteration, indexing (`get`, `get_value`, for every index,
+in or out of range), `tags()` and `len()`; no accessor panics.
+`pairs` is the caller's list, stably sorted, with each value replaced by its bytes. -/
+theorem view_roundtrip (bytes : V → List UInt8) (len : V → Nat) (ps : List (Pair V))
+    (w : Wrapper V) (h : Accepted len ps w) (hl : ∀ p ∈ ps, len p.2 = (bytes p.2).length) :
+    let pairs := (sortByTag ps).map (fun p => (p.1.toNat, bytes p.2))
+    ∃ out, w.encode bytes len = some out ∧
+      (View.mk out).iter = some pairs ∧
+      (View.mk out).len = some pairs.length ∧
+      (View.mk out).tags = some (pairs.map (·.1)) ∧
+      (∀ i, (View.mk out).get i = some pairs[i]?) ∧
+      (∀ i, (View.mk out).getValue i = some (pairs[i]?.map (·.2))) := by
+  intro pairs
+  obtain ⟨out, h1, hv, hp⟩ := h.view bytes hl
+  refine ⟨out, h1, ?_, ?_, ?_, ?_, ?_⟩
+  · rw [View.iter_eq hv, hp]
+  · rw [View.len_eq out hv.h4, ← pairsOf_length, hp]
+  · rw [View.tags_eq out hv.h4 hv.h8, hdrTags_eq_pairsOf, hp]
+  · intro i; rw [View.get_eq hv i, hp]
+  · intro i; rw [View.getValue_eq' hv i, hp]
+
+/-- Tag lookup on the emitted bytes, for ANY search that returns some matching
+index on a sorted array (std's `binary_search` is one: `C12.std_search_ok`; with
+repeated tags the theorem does not depend on which match it picks): `find(t)`
+does not panic, returns the bytes of a value the caller stored under exactly the
+tag `t`, and returns nothing only if no pair carries `t`.  In particular, when
+all pairs tagged `t` have the same bytes `val` (e.g. `t` occurs once), then
+`find(t) = Some(val)`. -/
+theorem view_find (bytes : V → List UInt8) (len : V → Nat) (ps : List (Pair V))
+    (w : Wrapper V) (h : Accepted len ps w) (hl : ∀ p ∈ ps, len p.2 = (bytes p.2).length)
+    (s : List Nat → Nat → Option (Option Nat)) (hs : IsSearch s) (t : Nat) :
+    ∃ out r, w.encode bytes len = some out ∧ (View.mk out).findWith s t = some r ∧
+      (∀ val, r = some val → ∃ p ∈ ps, p.1.toNat = t ∧ bytes p.2 = val) ∧
+      (r = none → ∀ p ∈ ps, p.1.toNat ≠ t) ∧
+      (∀ val, (∃ p ∈ ps, p.1.toNat = t) → (∀ p ∈ ps, p.1.toNat = t → bytes p.2 = val) →
+        r = some val) := by
+  obtain ⟨out, h1, hv, hp⟩ := h.view bytes hl
+  obtain ⟨r, hr, hsome, hnone⟩ := View.findWith_sound hs hv t
+  have hperm := sortByTag_perm ps
+  have hA : ∀ val, r = some val → ∃ p ∈ ps, p.1.toNat = t ∧ bytes p.2 = val := by
+    intro val hval
+    obtain ⟨i, hi⟩ := hsome val hval
+    have hm := List.mem_of_getElem? hi
+    rw [hp] at hm
+    obtain ⟨p, hpm, hpe⟩ := List.mem_map.mp hm
+    simp only [Prod.mk.injEq] at hpe
+    exact ⟨p, hperm.mem_iff.mp hpm, hpe.1, hpe.2⟩
+  have hB : r = none → ∀ p ∈ ps, p.1.toNat ≠ t := by
+    intro hn p hpm
+    have := hnone hn (p.1.toNat, bytes p.2) (by
+      rw [hp]; exact List.mem_map.mpr ⟨p, hperm.mem_iff.mpr hpm, rfl⟩)
+    exact this
+  refine ⟨out, r, h1, hr, hA, hB, ?_⟩
+  intro val ⟨p, hpm, hpt⟩ hall
+  cases hr' : r with
+  | none => exact absurd hpt (hB hr' p hpm)
+  | some v =>
+    obtain ⟨q, hq, hqt, hqv⟩ := hA v hr'
+    rw [← hqv, hall q hq hqt]
 
 /-- `new` (and `new_from_slice`) reject exactly the lists whose pair count, some
 single value length, or total encoded length (count word + `N-1` offsets + `N`
@@ -168,6 +236,10 @@ example : Wrapper.new List.length [((2 : UInt32), [122,120,99,118]), (1, [97,115
     = .ok ⟨23, [(1, [97,115,100]), (2, [122,120,99,118])]⟩ := by decide
 example : (Wrapper.mk 23 [((1 : UInt32), [97,115,100]), (2, [122,120,99,118])]).encode id List.length
     = some [2,0,0,0, 3,0,0,0, 1,0,0,0, 2,0,0,0, 97,115,100, 122,120,99,118] := by decide
+-- … and the view of those bytes iterates over the same pairs and finds tag 2.
+example : (View.mk [2,0,0,0, 3,0,0,0, 1,0,0,0, 2,0,0,0, 97,115,100, 122,120,99,118]).iter
+    = some [(1, [97,115,100]), (2, [122,120,99,118])] := by decide
+example : IsSearch binarySearch := binarySearch_isSearch
 -- Ties stay in insertion order; empty values and the empty message are fine.
 example : sortByTag [((5 : UInt32), [1]), (3, [2]), (5, []), (3, [4])]
     = [(3, [2]), (3, [4]), (5, [1]), (5, [])] := by decide
